@@ -151,3 +151,14 @@ impl Args {
         self.0.iter().any(|a| *a == k)
     }
 }
+
+/// `Iterator::any` / `Iterator::all` under names that do not collide with the aggregation
+/// traits tevec's prelude puts on every iterator
+pub fn any_of<I: IntoIterator>(it: I, f: impl FnMut(I::Item) -> bool) -> bool {
+    let mut f = f;
+    Iterator::any(&mut it.into_iter(), |x| f(x))
+}
+pub fn all_of<I: IntoIterator>(it: I, f: impl FnMut(I::Item) -> bool) -> bool {
+    let mut f = f;
+    Iterator::all(&mut it.into_iter(), |x| f(x))
+}
